@@ -1107,9 +1107,14 @@ impl SendKind {
                     .await;
                     // This replaces a response selected by `range` and the headers of the vary
                     // rules, so it has to advertise them, like the response it replaces.
+                    // The rules are those of the URI the replaced response was cached under.
+                    let path = request
+                        .extensions()
+                        .get::<extensions::InternalUri>()
+                        .map_or_else(|| request.uri().path(), |uri| uri.0.path());
                     vary::apply_header_from_settings(
                         &mut response,
-                        &host.vary.rules_from_request(request),
+                        &host.vary.rules_from_path(path),
                     );
                 }
                 Err(SanitizeError::UnsafePath) => {
@@ -1518,6 +1523,17 @@ pub async fn handle_cache(
     let sanitize_data = utils::sanitize_request(request);
 
     let overide_uri = host.extensions.resolve_prime(request, host, address).await;
+    // For what replaces this response later on (see `SendKind::send`).
+    match &overide_uri {
+        Some(uri) => {
+            request
+                .extensions_mut()
+                .insert(extensions::InternalUri(uri.clone()));
+        }
+        None => {
+            request.extensions_mut().remove::<extensions::InternalUri>();
+        }
+    }
 
     let uri_key =
         comprash::UriKey::path_and_query(overide_uri.as_ref().unwrap_or_else(|| request.uri()));
